@@ -55,7 +55,7 @@ Proof. vm_compute. reflexivity. Qed.
 Example clean_fetches :
   fetched N xblen xparse st_clean 5 1 = Some [(BTree, 2); (BData, 3); (BData, 4); (BData, 3)].
 Proof. vm_compute. reflexivity. Qed.
-Example clean_walk_collects : check_trees N xblen xparse st_clean 5 = Some ([], [101; 102; 102; 102]).
+Example clean_walk_collects : check_trees N xblen xparse st_clean 5 = Some ([], [100; 101; 102; 102; 102]).
 Proof. vm_compute. reflexivity. Qed.
 Example damaged_is_reported : xcheck st_blob_damaged 5 = Some [EBlobDecrypt].
 Proof. vm_compute. reflexivity. Qed.
@@ -63,10 +63,12 @@ Example damaged_does_not_restore :
   readable N xblen xparse st_blob_damaged (lookup N st_blob_damaged) 5 1 = Some false.
 Proof. vm_compute. reflexivity. Qed.
 
-(* root trees: read by the walk, never compared with their id, and their pack is not read *)
-Example root_replaced_witness :
-  xcheck st_root_replaced 5 = Some [] /\
-  xcorrect st_root_replaced (lookup N st_root_replaced) false 5 1 = Some true /\
+(* root trees: their pack is in the read set (since the fix), so an authentic tree of the same
+   layout put in the root's place is reported by check_pack; the walk itself still does not compare
+   the hash: with the tree walk alone (no read_data) the replacement goes through *)
+Example root_replaced_is_reported :
+  xcheck st_root_replaced 5 = Some [EBlobHash] /\
+  check_trees N xblen xparse st_root_replaced 5 = Some ([], [100; 102]) /\
   xcorrect st_root_replaced (lookup N st_root_replaced) true 5 1 = Some false.
 Proof. vm_compute. repeat split; reflexivity. Qed.
 
